@@ -29,7 +29,7 @@ theorem flushLoop_eff (g : Cfg) : ∀ (fuel : Nat) (s : S) (ks : List KAns),
       ⟨⟨[], by simp [closeNow], by simp [closeNow]⟩, by simp [closeNow, backlog]⟩
     unfold flushLoop
     split
-    · exact ⟨⟨[], eff_of_D (D_cResetRead g s)⟩, by rw [wl_cResetRead]; exact Nat.le_refl _⟩
+    · exact ⟨⟨[], eff_of_D ((D_cResetRead g (stopTimer s)).trans rfl)⟩, by rw [wl_cResetRead]; exact Nat.le_refl _⟩
     · rename_i d off tl hwl
       simp only
       split
